@@ -324,6 +324,10 @@ SPECS['C10'] = dict(
         + parts(ch('pool-slots', 'harness.c10', 'h_pool', 'conservation / blocking at the bound / all slots free at quiescence, histories of '
                    'submissions, takes, results, exits, ticks, a map job, a failing send, result callbacks (which see the slot free again, may raise a propagated exception), grow() followed by supervision passes', timeout=(300, 1500)), 6)
         + parts(twin('pool-slots', 'harness.c10', 'h_pool_twin', 'a run in which apply_async blocks exists'), 6)
+        + [ch('overlapping-operations', 'harness.c10', 'h_overlap', 'two threads: shrink / grow / release instrumented at statement level from its current source, the other thread performing one whole '
+              'release / acquire / grow / shrink at a solver-chosen point at which the semaphore\'s lock is free; from any valid state (1 <= value = bound - held <= bound <= 1000): afterwards '
+              '0 <= value <= bound, the bound is the configured size and value = bound - slots held (no slot lost or invented)', timeout=(200, 900)),
+           twin('overlapping-operations', 'harness.c10', 'h_overlap_twin', 'a release landing inside shrink() exists')]
         + [smt('race-release-release', 'harness.c10', 'ob_release_release', 'E2: release || release, every interleaving of attribute reads/writes and lock operations: value <= bound',
                replay_function='replay_race'),
            smt('race-release-grow', 'harness.c10', 'ob_release_grow', 'E2: release || grow', replay_function='replay_race'),
